@@ -50,12 +50,15 @@ def sumR : List Rat → Rat
   | [] => 0
   | x :: xs => x + sumR xs
 
+/-- number of variables of check `c` -/
+def deg (H : Graph) (c : Nat) : Nat := (H.getD c []).length
+
 /-- sum of the check-to-variable messages arriving at variable `v`, leaving out edge `(c0, j0)`
 (`c0 = H.length` leaves out nothing) -/
 def inSum (H : Graph) (M : Msgs) (v c0 j0 : Nat) : Rat :=
-  sumR (H.zipIdx.map fun rc =>
-    sumR (rc.1.zipIdx.map fun vj =>
-      if vj.1 = v ∧ ¬ (rc.2 = c0 ∧ vj.2 = j0) then msgAt M rc.2 vj.2 else 0))
+  sumR ((List.range H.length).map fun c =>
+    sumR ((List.range (deg H c)).map fun j =>
+      if varAt H c j = v ∧ ¬ (c = c0 ∧ j = j0) then msgAt M c j else 0))
 
 /-- variable-to-check message on edge `(c, j)`: channel LLR plus all *other* incoming messages,
 clipped to `±cl` (the implementation computes `marginal − own message` and clamps to ±500) -/
@@ -64,9 +67,9 @@ def vc (H : Graph) (llr : List Rat) (M : Msgs) (cl : Rat) (c j : Nat) : Rat :=
 
 /-- one flooding round with check rule `rule` (applied to the other edges of the check) -/
 def step (rule : List Rat → Rat) (H : Graph) (llr : List Rat) (cl : Rat) (M : Msgs) : Msgs :=
-  H.zipIdx.map fun rc =>
-    (List.range rc.1.length).map fun j =>
-      rule (((List.range rc.1.length).map fun j' => vc H llr M cl rc.2 j').eraseIdx j)
+  (List.range H.length).map fun c =>
+    (List.range (deg H c)).map fun j =>
+      rule (((List.range (deg H c)).map fun j' => vc H llr M cl c j').eraseIdx j)
 
 def zeroMsgs (H : Graph) : Msgs := H.map fun row => row.map fun _ => 0
 
